@@ -164,7 +164,8 @@ func c01(r *core.Run) {
 		"(which runtime.GetWrappedError would report as an internal UnexpectedError); every error type of the module carries exactly one marker; " +
 		"(R2) every embedding entry point of runtime that runs user code defers runtime.Recover before any other call; " +
 		"(R3) every recover() site has the reviewed arm summary (which dynamic types are absorbed, which re-panicked): none absorbs a Go runtime.Error or an InternalError except the reviewed boundaries, and new sites are violations until classified; " +
-		"(R4) module-wide error discipline: no call of a module, atree or fixed-point function has its error result dropped, overwritten before being tested, or swallowed on its non-nil edge, beyond the 121 sites recorded from the pinned tree (a baseline, not individually justified)."
+		"(R4) module-wide error discipline: no call of a module, atree or fixed-point function has its error result dropped, overwritten before being tested, or swallowed on its non-nil edge, beyond the 121 sites recorded from the pinned tree (a baseline, not individually justified); " +
+		"(R6) no raw VM.locals / Upvalue.closed slot value is pushed on the VM operand stack without maybeUnwrapImplicitReference (an ImplicitReferenceValue there fails a Go type assertion, i.e. an internal error)."
 	r.NotDecided = "type soundness (that defensive internal-error checks never fire for checker-accepted programs) and VM/interpreter parity: these need generated programs."
 	w := r.W
 	ec := loadErrClasses(r)
@@ -232,6 +233,8 @@ func c01(r *core.Run) {
 	fixSaturation(r)
 	checkRecoverTable(r, "R3.recover")
 	r.Floor("R3.recover", 30)
+	// R6 VM-internal wrapper values never reach the operand stack (a Go type-assertion panic there is an internal error)
+	vmImplicitRefRule(r, "R6.implicitref")
 }
 
 func typeShort(t types.Type) string {
